@@ -200,18 +200,20 @@ def sortBy {α : Type} (lt : α → α → Bool) (l : List α) : List α := l.fo
 
 def ltRange (a b : Nat × Nat) : Bool := a.1 < b.1 || (a.1 == b.1 && a.2 < b.2)
 
-/-- `extractWitnessComponentOffsets(witnessData, baseOffset, loc)` with the maps printed
-    canonically (ranges sorted by offset, redeemers by key). -/
-def witnessComponents (data : Bytes) (base : Nat) : Comp :=
-  if data.length < 2 then {} else
-  let (count, hs, indef) := mapInfo data
-  if count < 0 ∧ !indef then {} else
-  let a := witLoop data base count.toNat indef (data.length + 1) hs 0 {}
+/-- the three Go maps printed canonically (ranges sorted by offset, redeemers by key) -/
+def compOfAcc (a : Acc) : Comp :=
   { datums := sortBy ltRange (a.d.map (·.2)),
     redeemers := sortBy (fun x y => x.1 < y.1 || (x.1 == y.1 && x.2.1 < y.2.1))
       (a.r.map fun e => (e.1.1, e.1.2, e.2.1, e.2.2)),
     scripts := sortBy ltRange (a.s.map (·.2)),
     plutus := (a.s.filter fun e => e.1.1 != 0).length }
+
+/-- `extractWitnessComponentOffsets(witnessData, baseOffset, loc)` -/
+def witnessComponents (data : Bytes) (base : Nat) : Comp :=
+  if data.length < 2 then {} else
+  let (count, hs, indef) := mapInfo data
+  if count < 0 ∧ !indef then {} else
+  compOfAcc (witLoop data base count.toNat indef (data.length + 1) hs 0 {})
 
 /-- components of every transaction, as `ExtractTransactionOffsets` fills them in: the
     Shelley+ and Dijkstra paths call `extractWitnessComponentOffsets(rawWitness, witnessPos)`,
